@@ -8,6 +8,7 @@ use crate::ops::{ctx_string, d, first_diff, hx, key32};
 use crate::plan::*;
 use crate::rng::Fnv;
 use crate::sched;
+use blake3::hazmat::HasherExt;
 use std::os::raw::{c_char, c_int, c_void};
 use std::sync::atomic::AtomicUsize;
 use std::sync::Arc;
@@ -192,19 +193,67 @@ unsafe fn c_init(fl: u8, h: *mut HasherC, m: &MMode, raw: bool) -> bool {
         (f, MMode::Derive(c)) => {
             if raw || c.contains(&0) {
                 // any bytes, embedded NUL included; a dangling pointer for an empty context
-                let p = if c.is_empty() { std::ptr::NonNull::<u8>::dangling().as_ptr() as *const c_void } else { c.as_ptr() as *const c_void };
-                if f == 0 {
-                    ca::init_derive_key_raw(h, p, c.len())
+                thread_local! {
+                    static RBUF: std::cell::RefCell<Vec<u8>> = std::cell::RefCell::new(Vec::with_capacity(16384));
+                }
+                if c.is_empty() {
+                    let p = std::ptr::NonNull::<u8>::dangling().as_ptr() as *const c_void;
+                    if f == 0 {
+                        ca::init_derive_key_raw(h, p, 0)
+                    } else {
+                        ci::init_derive_key_raw(h, p, 0)
+                    }
                 } else {
-                    ci::init_derive_key_raw(h, p, c.len())
+                    // reused address, a decoy of the same length first (see stable.rs)
+                    RBUF.with(|b| {
+                        let mut b = b.borrow_mut();
+                        b.clear();
+                        b.extend_from_slice(c);
+                        b[0] ^= 1;
+                        let mut scratch: Box<HasherC> = zeroed();
+                        if f == 0 {
+                            ca::init_derive_key_raw(&mut *scratch, b.as_ptr() as *const c_void, c.len())
+                        } else {
+                            ci::init_derive_key_raw(&mut *scratch, b.as_ptr() as *const c_void, c.len())
+                        }
+                        b[0] ^= 1;
+                        if f == 0 {
+                            ca::init_derive_key_raw(h, b.as_ptr() as *const c_void, c.len())
+                        } else {
+                            ci::init_derive_key_raw(h, b.as_ptr() as *const c_void, c.len())
+                        }
+                    });
                 }
             } else {
-                let cs = std::ffi::CString::new(c.clone()).unwrap();
-                if f == 0 {
-                    ca::init_derive_key(h, cs.as_ptr())
-                } else {
-                    ci::init_derive_key(h, cs.as_ptr())
+                // the C string lives in one reused per-thread buffer, and a different context of the same length is
+                // used at the same address just before (see stable.rs): the key depends on the bytes only
+                thread_local! {
+                    static CBUF: std::cell::RefCell<Vec<u8>> = std::cell::RefCell::new(Vec::with_capacity(16384));
                 }
+                CBUF.with(|b| {
+                    let mut b = b.borrow_mut();
+                    let mut decoy = c.clone();
+                    if let Some(x) = decoy.iter_mut().find(|x| x.is_ascii_alphanumeric() || **x == b' ' || **x == b'-') {
+                        *x = if *x == b'q' { b'r' } else { b'q' };
+                        b.clear();
+                        b.extend_from_slice(&decoy);
+                        b.push(0);
+                        let mut scratch: Box<HasherC> = zeroed();
+                        if f == 0 {
+                            ca::init_derive_key(&mut *scratch, b.as_ptr() as *const c_char)
+                        } else {
+                            ci::init_derive_key(&mut *scratch, b.as_ptr() as *const c_char)
+                        }
+                    }
+                    b.clear();
+                    b.extend_from_slice(c);
+                    b.push(0);
+                    if f == 0 {
+                        ca::init_derive_key(h, b.as_ptr() as *const c_char)
+                    } else {
+                        ci::init_derive_key(h, b.as_ptr() as *const c_char)
+                    }
+                });
             }
         }
         (_, MMode::ContextKey(_)) => return false,
@@ -342,6 +391,68 @@ pub fn do_cop(sh: &Arc<Shared>, local: &mut TaskLocal, op: &Op) -> OpResult {
             f.u64(cs.absorbed.len() as u64);
             sh.shape(Fnv::of(&[cs.flavour, (cs.absorbed.len() % 1024 != 0) as u8, ((cs.absorbed.len() / 1024) as u64).count_ones() as u8, tbb.is_some() as u8, 77]));
             Ok(f.0)
+        }
+        Op::CUpdateHuge { c, extra } => {
+            let cs = get!(local, *c);
+            let n: usize = (1usize << 32) + *extra as usize;
+            const ALIGN: usize = 2 << 20;
+            let fl = cs.flavour;
+            let mut got = [0u8; 32];
+            // [inaccessible page][n zero bytes, read-only, never written: the kernel's zero pages][inaccessible page];
+            // the input starts right behind the first inaccessible page or ends right before the second
+            unsafe {
+                let span = (n + 4095) / 4096 * 4096;
+                let base = libc::mmap(std::ptr::null_mut(), span + 2 * ALIGN + 8192, libc::PROT_NONE, libc::MAP_PRIVATE | libc::MAP_ANONYMOUS | libc::MAP_NORESERVE, -1, 0);
+                if base == libc::MAP_FAILED {
+                    return Err(OpErr::Harness("address space for the huge input".into()));
+                }
+                let start = ((base as usize + 4096 + ALIGN - 1) / ALIGN * ALIGN) as *mut u8;
+                if libc::mprotect(start as *mut libc::c_void, span, libc::PROT_READ) != 0 {
+                    libc::munmap(base, span + 2 * ALIGN + 8192);
+                    return Err(OpErr::Harness("mprotect of the huge input".into()));
+                }
+                libc::madvise(start as *mut libc::c_void, span, libc::MADV_HUGEPAGE);
+                let inp = if extra % 2 == 0 { start } else { start.add(span - n) };
+                let hp: *mut HasherC = &mut *cs.h;
+                {
+                    let _g = crate::guard::SutGuard::enter();
+                    if fl == 0 {
+                        ca::update(hp, inp as *const c_void, n);
+                        ca::finalize(hp as *const HasherC, got.as_mut_ptr(), 32);
+                    } else {
+                        ci::update(hp, inp as *const c_void, n);
+                        ci::finalize(hp as *const HasherC, got.as_mut_ptr(), 32);
+                    }
+                }
+                libc::munmap(base, span + 2 * ALIGN + 8192);
+            }
+            // the Rust crate on the same bytes, in pieces
+            let want = sched::quiet(|| {
+                let mut o = match &cs.mode {
+                    MMode::Hash => blake3::Hasher::new(),
+                    MMode::Keyed(k) => blake3::Hasher::new_keyed(k),
+                    MMode::Derive(c) => match std::str::from_utf8(c) {
+                        Ok(s) => blake3::Hasher::new_derive_key(s),
+                        Err(_) => blake3::Hasher::new_from_context_key(&crate::model::context_key(c)),
+                    },
+                    MMode::ContextKey(k) => blake3::Hasher::new_from_context_key(k),
+                };
+                o.update(&cs.absorbed);
+                let zeros = vec![0u8; 4 << 20];
+                let mut left = n;
+                while left > 0 {
+                    let k = left.min(zeros.len());
+                    o.update(&zeros[..k]);
+                    left -= k;
+                }
+                *o.finalize().as_bytes()
+            });
+            local.slots.remove(c);
+            if got != want {
+                return viol("result-mismatch", format!("one blake3_hasher_update call with {n} bytes: digest {} differs from the Rust crate fed the same bytes in pieces ({})", hx(&got), hx(&want)));
+            }
+            sh.probe("c_update_len_above_2^32");
+            Ok(Fnv::of(&got))
         }
         Op::CFinalizeHuge { c, seek, extra } => {
             let cs = get!(local, *c);
